@@ -23,6 +23,8 @@ from pddl_plus_parser.models import pddl_domain as pddl_domain_module
 from pddl_plus_parser.multi_agent import MultiAgentDomainsConverter, MultiAgentProblemsConverter
 
 from ops_core import number_table, vocab as core_vocab  # shared helpers of the semantic core (read-only use)
+from ops_c05 import problem_dump as c05_problem_dump, vocab as c05_vocab  # C05/C09's dump format (read-only use)
+from ops_c09 import values_of as c09_values_of
 
 WORK = Path(os.environ.get("VERIF_WORK", "/verif/work")) / "C17"
 
@@ -299,17 +301,45 @@ def combine(job):
             f.write_text(job["original_problem"])
             res["pexpect"] = attempt(lambda: parse_problem(f))
         pconv = MultiAgentProblemsConverter(cdir, problem_file_prefix=prefix)
+        pstruct = {}
+
+        def pcombine():
+            pb = pconv.combine_problems(dpath)
+            if job.get("structured"):
+                pstruct["obs"] = c05_problem_dump(pb)
+            return dump_problem(pb)
         with forced_glob(job.get("porder")):
-            res["pobs"] = attempt(lambda: dump_problem(pconv.combine_problems(dpath)))
+            res["pobs"] = attempt(pcombine)
         if "ok" in res["pobs"]:
             def pexport():
                 with forced_glob(job.get("porder")):
                     pconv.export_combined_problem(dpath)
-                return parse_problem(cdir / "combined_problem.pddl")
+                if job.get("structured"):
+                    pstruct["export"] = (cdir / "combined_problem.pddl").read_text()
+                dom = DomainParser(domain_path=dpath, partial_parsing=False).parse_domain()
+                pb = ProblemParser(problem_path=cdir / "combined_problem.pddl", domain=dom).parse_problem()
+                if job.get("structured"):
+                    pstruct["rt"] = c05_problem_dump(pb)
+                return dump_problem(pb)
             res["prt"] = attempt(pexport)
             if "ok" in res["prt"]:
                 res["prt_same"] = canon_problem(res["prt"]["ok"]) == canon_problem(res["pobs"]["ok"])
         res["default_after_problems"] = default_state()
+        if job.get("structured"):
+            # what the structured problem correspondence (Corr/C17p.v) needs: the vocabulary of the domain the problems were
+            # parsed against, the texts, float() of their numerals and of the exported text's, repr() of the values
+            pstruct["vocab"] = c05_vocab(DomainParser(domain_path=dpath, partial_parsing=False).parse_domain())
+            nums = {}
+            for n in porder:
+                nums.update(number_table(job["pfiles"][n]))
+            nums.update(number_table(pstruct.get("export", "")))
+            reprs = {}
+            for key in ("obs", "rt"):
+                if key in pstruct:
+                    for x in c09_values_of(pstruct[key]):
+                        reprs[x.hex()] = repr(x)
+            pstruct.update({"nums": nums, "reprs": reprs})
+            res["pstructured"] = pstruct
     # ---- history after the call: the domains parsed before are untouched, parsing them again gives the same
     res["others_after"] = [[n, digest(others[n])] for n in onames]
     res["others_again"] = parse_others_again()
